@@ -433,7 +433,13 @@ Proof.
     eapply inv_same5; [|apply inv_to_cache; exact I2]. repeat split. }
   set (s3 := fold_left _ fin s2) in *. clearbody s3.
   revert s3 I3. induction val as [|o r IH]; intros s3 I3; simpl; auto.
-  apply IH. apply inv_process, inv_to_cache; auto.
+  apply IH. unfold recover_validate.
+  destruct ((ST_FINALIZED <=? cache_state s3 (f_name (obj s3 o))) &&
+            name_eqb (cache_hash s3 (f_name (obj s3 o))) (f_hash (obj s3 o))).
+  - (* the duplicate is dropped: only a .full body and its companion go away *)
+    destruct I3 as [A B C D E G]. constructor; simpl; auto.
+    intros n0 c0 Hin. apply E. eapply aremove_in; eauto.
+  - apply inv_process, inv_to_cache; auto.
 Qed.
 
 (* operations inside D: every announced part of a name carries THE hash of
